@@ -49,8 +49,9 @@ package disk
 //@   trace os.Open as OPEN bind operr
 //@   trace os.Create as CREATE bind crerr
 //@   trace io.Copy as IOCOPY bind cperr
-//@   trace (*File).Close as CLOSE
+//@   trace (*File).Close as CLOSE bind dclose when $0 == crerr.0
 //@   trace_ensures operr.1 != nil : ^OPEN $
 //@   ensures operr.1 != nil ==> result == operr.1
 //@   ensures operr.1 == nil && crerr.1 != nil ==> result == crerr.1
 //@   ensures operr.1 == nil && crerr.1 == nil && cperr.1 != nil ==> result == cperr.1
+//@   ensures operr.1 == nil && crerr.1 == nil && cperr.1 == nil ==> result == dclose
